@@ -160,12 +160,12 @@ def make_twin_file(template, unit):
         tsig = sig[:m.start(1)] + name + '__twin' + sig[m.end(1):]
         e = re.search(r'\bensures\b', tsig)
         tsig = (tsig[:e.start()] if e else tsig.rstrip()) + '\n    ensures false,\n'
-        start = sum(x.count('\n') + 1 for x in out) + 1
+        start = sum(x.count('\n') + 1 for x in out) + 2
         ttext = tsig + '{\n' + '\n'.join(fn['pre']) + '\n' + body + '\n' + '\n'.join(fn['post']) + '\n}\n'
         out.append(ttext)
         twins.append(dict(id=fn['id'], name=name + '__twin', gen_line_start=start, gen_line_end=start + ttext.count('\n')))
     path = os.path.join(BUILD, unit + '_twin.rs')
-    open(path, 'w').write('\n'.join(out))
+    open(path, 'w').write('#![feature(allocator_api)]\n' + '\n'.join(out))
     return path, twins
 
 
